@@ -1371,7 +1371,7 @@ where
 
 #[derive(Debug, Clone)]
 pub enum AggregateFunction {
-    Count { distinct: bool },
+    Count { distinct: bool, column: Option<usize> },
     Sum { column: usize },
     Avg { column: usize },
     Min { column: usize },
